@@ -1,6 +1,8 @@
 CONSTANTS
   MaxN = 4
   Kinds <- KindsDef
+  Bases <- BasesEmpty
+  MaxSteps = 99
   DUP = FALSE
   SFlaws <- SFlawsDef
 SPECIFICATION Spec
